@@ -158,7 +158,6 @@ vnacal_parameter_t *_vnacal_alloc_parameter(const char *function, vnacal_t *vcp)
 	    ++parameter;
 	    assert(parameter < vprmcp->vprmc_allocation);
 	}
-	vprmcp->vprmc_first_free = parameter + 1;
 
     } else {
 	vnacal_parameter_t **vpmrpp;
@@ -202,6 +201,7 @@ vnacal_parameter_t *_vnacal_alloc_parameter(const char *function, vnacal_t *vcp)
     vpmrp->vpmr_segment = 0;
     vpmrp->vpmr_vcp = vcp;
     vprmcp->vprmc_vector[parameter] = vpmrp;
+    vprmcp->vprmc_first_free = parameter + 1;
     ++vprmcp->vprmc_count;
     return vpmrp;
 }
